@@ -26,7 +26,7 @@ CCN = f"{PUTIL}:charge_conjugate_name"
 
 
 def run(ctx, ss):
-    for r, f in (("C04.1", c04_1), ("C04.2", c04_2), ("C04.3", c04_3), ("C04.4", c04_4)):
+    for r, f in (("C04.1", c04_1), ("C04.2", c04_2), ("C04.2", c04_defaults), ("C04.3", c04_3), ("C04.4", c04_4)):
         ctx.guard(r, f, ss)
 
 
@@ -135,6 +135,15 @@ def c04_2(ctx, ss):
         c_id = [c for c in seen["id"][1] if c[0] == "exc"]
         (ctx.holds if c_id else ctx.violation)("C04.2", ckey(ff, None, "order"), where(ff, seen["id"][0]),
                                                 "id negation is the fallback of the database inversion" if c_id else "id negation is not the fallback of the database inversion")
+
+
+def c04_defaults(ctx, ss):
+    for short, q in ((PUTIL, "charge_conjugate_name"), (DECAY, "DaughtersDict.charge_conjugate"), (DECAY, "DecayMode.charge_conjugate")):
+        ff, _ = fn(ss, short, q)
+        d = ff.node.args.defaults
+        ok = len(d) == 1 and isinstance(d[0], ast.Constant) and d[0].value is False
+        (ctx.holds if ok else ctx.violation)("C04.2", ckey(ff, None, "default-naming"), where(ff, ff.node),
+                                              f"{q}: EvtGen naming by default (pdg_name=False)" if ok else f"{q}: pdg_name no longer defaults to False: EvtGen names are treated as PDG names by default")
 
 
 def c04_3(ctx, ss):
